@@ -1962,6 +1962,27 @@ foamToSExpr(Foam foam)
 
 #define croak(sx, msg)	comsgFatal(abNewNothing(sxiPos(sx)), msg)
 
+/*
+ * An integer read from FOAM text need not fit the immediate representation
+ * of big integers (values of 2^62 and above do not): take its machine word.
+ */
+local AInt
+foamIntegerFrSExpr(SExpr sxi)
+{
+	BInt	b = sxi->sxInteger.val;
+	ULong	n = 0;
+	int	i;
+
+	if (bintIsSmall(b)) return bintSmall(b);
+
+	for (i = bitsizeof(AInt) - 1; i >= 0; i--) {
+		n <<= 1;
+		if (bintBit(b, i)) n++;
+	}
+	if (bintIsNeg(b)) n = -n;
+	return (AInt) n;
+}
+
 Foam
 foamFrSExpr(SExpr sx)
 {
@@ -2007,7 +2028,7 @@ foamFrSExpr(SExpr sx)
 		case 'w':
 		case 'i':
 			if (!sxiIntegerP(sxi)) croak(sxi, ALDOR_F_LoadNotInteger);
-			foamArgv(foam)[si].data = sxiToInteger(sxi);
+			foamArgv(foam)[si].data = foamIntegerFrSExpr(sxi);
 			break;
 		case 't':
 		case 'o':
